@@ -101,4 +101,4 @@ NOT_APPLICABLE = {
 UNBUILT_REASON = 'structural clause identified (DESIGN section 4) but the checker is not built; not claimed'
 
 # rule modules that exist but are not claimed yet (work in progress / waiting for a fix commit)
-PENDING = {'C01'}  # C01.index-norm finding: fix pending full-suite run (round 5)
+PENDING = set()
